@@ -146,7 +146,7 @@ var malformed = []string{
 	"stress 1 4 100 1", "stress 1 1 100 1 a", "stress 1 9 100 1 a", "stress 1 4 0 1 a", "stress 1 4 5001 1 a",
 	"stress 1 4 100 0 a", "stress 1 4 100 5 b", "stress 1 4 100 1 c", "stress x 4 100 1 a", "stress 1234567890 4 100 1 a",
 	"stress 1 4 1e2 1 a", "stress -1 4 100 1 a",
-	"writers 1 N0o 0", "writers 1 O0o,d0 0", "sched 1 O0o 0", "sched 1 c 0", "writers 1 O1o 0", "writers 1 O0x 0", "writers 1 O0o,G 0", "writers 1 c,O0o 0", "writers 1 O0o,c,c 0", "hosts 1 N0o 0", "hosts 1 P0,c,P0 0", "hosts 1 P1 0", "sched 1 P0 0", "writers 1 P0 0", "hosts 1 O0o 0", "sched 1 Z1 0", "writers 4 O3f 0", "writers 4 O0o 0", "writers 1 L0x 0", "writers 1 L1g 0", "sched 1 L0g 0", "hosts 1 L0b 0", "writers 1 L0 0",
+	"writers 1 N0o 0", "writers 1 O0o,d0 0", "sched 1 O0o 0", "sched 1 c 0", "writers 1 O1o 0", "writers 1 O0x 0", "writers 1 O0o,G 0", "writers 1 c,O0o 0", "writers 1 O0o,c,c 0", "hosts 1 N0o 0", "hosts 1 P0,c,P0 0", "hosts 1 P1 0", "sched 1 P0 0", "writers 1 P0 0", "hosts 1 O0o 0", "sched 1 Z1 0", "writers 4 O3f 0", "writers 4 O0o 0", "writers 1 L0x 0", "listeners 3 A0 0", "listeners 1 A1 0", "listeners 1 O0o 0", "listeners 1 c,A0 0", "sched 1 A0 0", "hosts 1 F0 0", "writers 1 L1g 0", "sched 1 L0g 0", "hosts 1 L0b 0", "writers 1 L0 0",
 }
 
 // client lines: configs that open log writers (some OpenWriter calls fail) and close their logs
@@ -266,6 +266,38 @@ func (prop) Generate(rng *core.Rand, tier string, emit func(string)) {
 		for i := 0; i < sample3; i++ {
 			emit(pre + randSched(rng, nt, 4+rng.Intn(16)))
 		}
+	}
+	// the unix listener glue, whole calls
+	for _, progs := range []string{"A0,c;A0,c", "A0,F0,c;A0,c", "F0,A0,c;F0,c", "A0,A0,c;A0,c;A0,c", "A0;A0,c"} {
+		nt := strings.Count(progs, ";") + 1
+		emit("listeners 1 " + progs + " -")
+		for i := 0; i < sample3/3; i++ {
+			emit("listeners 1 " + progs + " " + randSched(rng, nt, 2+rng.Intn(8)))
+		}
+	}
+	for i := 0; i < nRandom/40; i++ {
+		nk := 1 + rng.Intn(2)
+		nt := 1 + rng.Intn(3)
+		var ps []string
+		for t := 0; t < nt; t++ {
+			var ops []string
+			for n := 1 + rng.Intn(4); n > 0; n-- {
+				if rng.Chance(1, 4) {
+					ops = append(ops, "F"+strconv.Itoa(rng.Intn(nk)))
+				} else {
+					ops = append(ops, "A"+strconv.Itoa(rng.Intn(nk)))
+				}
+			}
+			if rng.Chance(5, 6) {
+				ops = append(ops, "c")
+			}
+			ps = append(ps, strings.Join(ops, ","))
+		}
+		sc := "-"
+		if l := rng.Intn(10); l > 0 {
+			sc = randSched(rng, nt, l)
+		}
+		emit("listeners " + strconv.Itoa(nk) + " " + strings.Join(ps, ";") + " " + sc)
 	}
 	for _, cs := range curatedHosts {
 		nt := strings.Count(cs.progs, ";") + 1
